@@ -341,6 +341,9 @@ const DIRECTED: &[(&str, &str, &str)] = &[
     ("four_captures_on_an_inner_node", "(module (expression_statement (identifier) @a @b @c @d)) { node n attr (n) a = @a, d = @d }", "x\ny\n"),
     ("four_captures_on_an_inner_optional_node", "(return_statement (identifier)? @a @b @c @d) { node n attr (n) a = @a, d = @d if some @d { print @d } }", "def f():\n    return x\n    return\n"),
     ("plus_after_capture_of_optional_pattern", "(assignment left: (_) @lhs right: (_)? @rhs+) { node n attr (n) l = (source-text @lhs) print @rhs }", "with a as b, c as d:\n    match = b\nwhile x: x = x - 1\n"),
+    ("later_stanzas_begin_with_bare_words", "(module) { node n }\n_ @any { node n attr (n) k = (node-type @any) }\n\"pass\" @kw { node n attr (n) t = (source-text @kw) }\n[(identifier) (integer)] @leaf { node n attr (n) l = (source-text @leaf) }\nleft: (identifier) @x { node n attr (n) lx = (source-text @x) }\n_ @w { node n attr (n) w = (start-row @w) }", "x = 1\npass\n"),
+    ("unknown_field_name_at_start_of_query", "(module) { node n }\n  nosuchfield: (identifier) @x { node n }", "x = 1\n"),
+    ("unknown_field_name_as_first_byte_of_file", "nosuchfield: (identifier) @x { node n }", "x = 1\n"),
     ("plus_on_top_of_star_quantifier", "(identifier)*+ @xs { node n attr (n) x = @xs }", "x = y\n"),
 ];
 
@@ -525,9 +528,38 @@ impl Prop for C05 {
         let tree = parse_python(&source);
         let ti = TreeInfo::new(&tree);
         let functions = stdlib();
-        for lazy in [false, true] {
+        // every other case also runs with the debug-attribute configuration, the three attribute
+        // names taken from the names the file itself assigns (so that the executor's attributes
+        // and the program's meet on one node or edge)
+        let own_names: Vec<String> = {
+            let re = regex::Regex::new(r"([A-Za-z_][A-Za-z0-9_-]*)\s*=").unwrap();
+            let mut v: Vec<String> = Vec::new();
+            for c in re.captures_iter(&text) {
+                let n = c[1].to_string();
+                if !v.contains(&n) {
+                    v.push(n);
+                }
+            }
+            v
+        };
+        let h = hash_str(&text) as usize;
+        let pick = |k: usize, fallback: &str| -> String {
+            if own_names.is_empty() {
+                fallback.to_string()
+            } else {
+                own_names[(h / (k + 1) + k) % own_names.len()].clone()
+            }
+        };
+        let (dl, dv, dm) = (pick(0, "debug_location"), pick(1, "debug_variable"), pick(2, "debug_match"));
+        let with_debug = h % 2 == 0;
+        let configs: &[(bool, bool)] = if with_debug { &[(false, false), (true, false), (false, true), (true, true)] } else { &[(false, false), (true, false)] };
+        for &(lazy, debug) in configs {
             let mode = if lazy { "lazy" } else { "strict" };
             let mut opts = ExecOpts::new(lazy);
+            if debug {
+                opts.debug_attrs = Some((&dl, &dv, &dm));
+                out.feat(&format!("exec:{}:with_debug_attributes_named_like_the_file's_own", mode));
+            }
             opts.poll_limit = 2_000_000;
             let rep = exec::execute(&file, &tree, &source, &ti, &globals, &functions, &opts);
             out.eval();
